@@ -8,6 +8,7 @@ import (
 	"fmt"
 	"math/rand"
 	"os"
+	"os/exec"
 	"path/filepath"
 	"strings"
 
@@ -331,6 +332,34 @@ func writeShard(path string, cases []Case) error {
 	return os.WriteFile(path, []byte(b.String()), 0o644)
 }
 
+// runAux runs histories through the helper binary (another GOARCH) and returns them with its verdicts.
+func runAux(exe, dir string, cases []Case) ([]Case, error) {
+	in := filepath.Join(dir, "aux_in.json")
+	outp := filepath.Join(dir, "aux_out.json")
+	data, err := json.Marshal(cases)
+	if err != nil {
+		return nil, err
+	}
+	if err := os.WriteFile(in, data, 0o644); err != nil {
+		return nil, err
+	}
+	if o, err := exec.Command(exe, in, outp).CombinedOutput(); err != nil {
+		return nil, fmt.Errorf("aux %s: %v: %s", exe, err, o)
+	}
+	data, err = os.ReadFile(outp)
+	if err != nil {
+		return nil, err
+	}
+	var res []Case
+	if err := json.Unmarshal(data, &res); err != nil {
+		return nil, err
+	}
+	if len(res) != len(cases) {
+		return nil, fmt.Errorf("aux returned %d histories for %d", len(res), len(cases))
+	}
+	return res, nil
+}
+
 func main() {
 	seed := flag.Int64("seed", 1, "PRNG seed")
 	n := flag.Int("n", 400, "number of histories")
@@ -340,6 +369,7 @@ func main() {
 	replayIn := flag.String("replay", "", "JSON file with cases (ops only) to run; observed verdicts are filled in")
 	ndev := flag.Int("ndev", 30, "number of histories replayed through a real device (co-simulation)")
 	corpus := flag.String("corpus", "", "directory of corpus JSON cases to prepend")
+	aux := flag.String("aux386", "", "cmd/c05w built with GOARCH=386: the filter histories are run through it too")
 	flag.Parse()
 	if err := os.MkdirAll(*out, 0o755); err != nil {
 		panic(err)
@@ -364,6 +394,12 @@ func main() {
 				} else if len(cs) > 0 {
 					cases[i].Obs = cs[0].Obs
 				}
+			} else if strings.HasSuffix(cases[i].Gen, "-386") && *aux != "" {
+				cs, err := runAux(*aux, *out, cases[i:i+1])
+				if err != nil {
+					panic(err)
+				}
+				cases[i].Obs = cs[0].Obs
 			} else {
 				cases[i].Obs = runImpl(cases[i].Ops)
 			}
@@ -397,6 +433,17 @@ func main() {
 			}
 			ops, kind := genHistory(r, ln)
 			cases = append(cases, Case{Ops: ops, Obs: runImpl(ops), Gen: kind})
+		}
+		// the same histories through a 32-bit build of the replay package (word-size assumptions)
+		if *aux != "" {
+			cs, err := runAux(*aux, *out, cases)
+			if err != nil {
+				panic(err)
+			}
+			for i := range cs {
+				cs[i].Gen += "-386"
+			}
+			cases = append(cases, cs...)
 		}
 		// the same generator through the receive path of a real device
 		type res struct {
